@@ -58,6 +58,15 @@ func observeRequest(kind, u, src, host string) (f reqFields, pv string) {
 			if !r.IsHostnameRequest || r.RequestType != rules.TypeDocument || r.URLLowerCase != r.URL {
 				panic("hostname request flags")
 			}
+			// the DNS engine recycles request objects: one that served a third-party web request before is filled for
+			// the same hostname and has to come out like the fresh one
+			r2 := rules.NewRequest("https://ads.third.example/x.js?q=1", "https://page.other.example/", rules.TypeScript)
+			rules.FillRequestForHostname(r2, host)
+			if r2.URL != r.URL || r2.URLLowerCase != r.URLLowerCase || r2.Hostname != r.Hostname || r2.Domain != r.Domain ||
+				r2.ThirdParty != r.ThirdParty || r2.IsHostnameRequest != r.IsHostnameRequest || r2.RequestType != r.RequestType {
+				panic(fmt.Sprintf("a recycled request filled for the hostname differs from a fresh one: domain %q/%q third-party %v/%v type %v/%v",
+					r2.Domain, r.Domain, r2.ThirdParty, r.ThirdParty, r2.RequestType, r.RequestType))
+			}
 		}
 	})
 	return
